@@ -22,4 +22,5 @@ for p in ('C01', 'C02', 'C03', 'C04', 'C07', 'C08', 'C10', 'C12', 'C16', 'C17', 
 OBLIGATIONS.append(Ob('C19.api', 'C19/api.cc', 'api_entry', tier='quick', engine='apiscan', diff=False,
     bound='all functions of the encode/decode pipeline reachable from Decoder::Decode*FromBuffer/DecodeBufferToGeometry, Encoder::Encode*ToBuffer, ExpertEncoder::EncodeToBuffer, KeyframeAnimationEncoder/Decoder (calls + vtables), unoptimised IR of 83 translation units',
     covers='no reference to a mutable global or function-local static anywhere in the pipeline (allow-list: stderr, std::nothrow)'))
-META = {'explanation': 'sufficient condition for C19: a unit that touches only the objects it was given cannot race or cross-talk with another instance, under any interleaving and any number of threads'}
+META = {'rule': 'one case = one real draco function (demangled, from the unoptimised IR) whose every instruction was scanned for references to mutable globals / local statics, summed over the scanned units (a function reachable from several harness entries is counted once per unit); evaluations = units scanned (+ CBMC reachability queries when a reference exists)',
+        'explanation': 'sufficient condition for C19: a unit that touches only the objects it was given cannot race or cross-talk with another instance, under any interleaving and any number of threads'}
